@@ -338,10 +338,21 @@ func (s *Store) compact(footer *Footer, partialCompactStart int,
 	if s.refs <= 0 {
 		// The store was closed while this compaction was in flight;
 		// nobody would ever release a footer installed now.
+		// The compaction itself is complete in its file: after a full
+		// compaction that new file stays and the superseded one goes, as
+		// after a successful round.  (Removing the new file instead
+		// would race with a reopen that picks it as the newest file and
+		// cleans up the old one.)
 		s.m.Unlock()
 		compactFooter.DecRef()
 		if partialCompactStart == 0 {
-			s.removeFileOnClose(frefCompact)
+			oldFref := footer.childFileRef()
+			if len(footer.SegmentLocs) > 0 && footer.SegmentLocs[0].mref != nil {
+				oldFref = footer.SegmentLocs[0].mref.fref
+			}
+			if oldFref != nil && oldFref != frefCompact {
+				s.removeFileOnClose(oldFref)
+			}
 		}
 		return ErrClosed
 	}
